@@ -21,7 +21,7 @@ const jBlock = 32768
 var c12Lens = []int{0, 1, 7, 32761, 32760, 32759, 32758, 32757, 32756, 32755, 32754, 32753, 32768, 32769, 65539}
 
 type c12Task struct {
-	Kind   string `json:"kind"` // roundtrip | trunc | flip
+	Kind   string `json:"kind"` // roundtrip | trunc | flip | zero
 	Lens   []int  `json:"lens"`
 	Mask   int    `json:"mask"` // bit i: Flush after record i
 	From   int    `json:"from"` // damage offsets [From, To)
@@ -302,7 +302,7 @@ func runC12(t *c12Task) *c12Result {
 				}
 			}
 		}
-	case "trunc", "flip":
+	case "trunc", "flip", "zero":
 		data, ext, err := buildStream(t.Lens, t.Mask)
 		if err != nil {
 			res.Viol = append(res.Viol, "writer error: "+err.Error())
@@ -316,6 +316,41 @@ func runC12(t *c12Task) *c12Result {
 		}
 		for off := t.From; off < to; off++ {
 			if t.Near && !nearBoundary(off, ext) {
+				continue
+			}
+			if t.Kind == "zero" {
+				// a run of zero bytes starting here and staying inside this 32 KiB block: two bytes,
+				// a header's worth, a little more, a hundred, and everything up to the block end
+				// (from offset 0 of a block: the whole block) - what a lost page or an unwritten
+				// extent looks like
+				bend := (off/jBlock + 1) * jBlock
+				if bend > len(data) {
+					bend = len(data)
+				}
+				for _, n := range []int{2, 7, 8, 100, bend - off} {
+					if off+n > bend || n <= 0 {
+						continue
+					}
+					d := append([]byte(nil), data...)
+					changed := false
+					for i := off; i < off+n; i++ {
+						if d[i] != 0 {
+							d[i] = 0
+							changed = true
+						}
+					}
+					if !changed {
+						continue
+					}
+					v, eff := checkDamaged(data, d, t.Lens, ext, -1, off)
+					res.Evals += 2
+					if eff {
+						res.Effect++
+					}
+					if v != "" && addClass(classes, v) {
+						res.Viol = append(res.Viol, fmt.Sprintf("lens=%v flushmask=%b %d bytes from %d zeroed: %s", t.Lens, t.Mask, n, off, v))
+					}
+				}
 				continue
 			}
 			if t.Kind == "trunc" {
@@ -423,7 +458,7 @@ func init() {
 				}
 			}
 			step := 4096
-			for _, kind := range []string{"trunc", "flip"} {
+			for _, kind := range []string{"trunc", "flip", "zero"} {
 				for _, s := range full {
 					data, _, _ := buildStream(s.lens, s.mask)
 					for from := 0; from < len(data)+1; from += step {
